@@ -406,7 +406,7 @@ fn place_j<'tcx>(cx: &mut Ctx<'tcx>, body: &Body<'tcx>, pl: &Place<'tcx>) -> J {
     J::Arr(v)
 }
 
-fn const_j<'tcx>(cx: &mut Ctx<'tcx>, c: &ConstOperand<'tcx>) -> J {
+fn const_j<'tcx>(cx: &mut Ctx<'tcx>, body: &Body<'tcx>, c: &ConstOperand<'tcx>) -> J {
     let tcx = cx.tcx;
     let ty = c.const_.ty();
     match ty.kind() {
@@ -419,8 +419,45 @@ fn const_j<'tcx>(cx: &mut Ctx<'tcx>, c: &ConstOperand<'tcx>) -> J {
             let t = cx.ty(ty);
             // Named constants / statics referenced
             let mut extra = J::Null;
+            let mut txt = txt;
             if let mir::Const::Unevaluated(uv, _) = c.const_ {
                 extra = J::s(path_of(tcx, uv.def));
+                // promoted constants (e.g. `&"Equal"`): print the evaluated value when the
+                // body is not generic
+                if let Some(pidx) = uv.promoted {
+                    // list the literal constants of the promoted body
+                    let _ = body;
+                    if uv.def.is_local() {
+                        let proms = tcx.promoted_mir(uv.def);
+                        if let Some(pb) = proms.get(pidx) {
+                            let mut lits: Vec<String> = Vec::new();
+                            for data in pb.basic_blocks.iter() {
+                                for st in data.statements.iter() {
+                                    if let StatementKind::Assign(b) = &st.kind {
+                                        let mut visit = |o: &Operand<'tcx>| {
+                                            if let Operand::Constant(k) = o {
+                                                if !matches!(k.const_, mir::Const::Unevaluated(..)) {
+                                                    lits.push(crate::np!((format!("{}", k.const_))));
+                                                }
+                                            }
+                                        };
+                                        match &b.1 {
+                                            Rvalue::Use(o, ..) => visit(o),
+                                            Rvalue::Aggregate(_, ops) => {
+                                                for o in ops.iter() {
+                                                    visit(o)
+                                                }
+                                            }
+                                            Rvalue::Cast(_, o, _) => visit(o),
+                                            _ => {}
+                                        }
+                                    }
+                                }
+                            }
+                            txt = format!("promoted[{}]", lits.join(", "));
+                        }
+                    }
+                }
             }
             J::Arr(vec![J::s("k"), J::s(txt), t, extra])
         }
@@ -431,7 +468,7 @@ fn operand_j<'tcx>(cx: &mut Ctx<'tcx>, body: &Body<'tcx>, op: &Operand<'tcx>) ->
     match op {
         Operand::Copy(p) => J::Arr(vec![J::s("c"), place_j(cx, body, p)]),
         Operand::Move(p) => J::Arr(vec![J::s("m"), place_j(cx, body, p)]),
-        Operand::Constant(c) => const_j(cx, c),
+        Operand::Constant(c) => const_j(cx, body, c),
         #[allow(unreachable_patterns)]
         _ => J::Arr(vec![J::s("k"), J::s(format!("{:?}", op)), J::Null, J::Null]),
     }
